@@ -119,8 +119,11 @@ theorem parseComment_end (H : LitFact s) (st : PState) (hi : Inv s st)
   · split
     · wvc; exact ⟨inv_setCont hi, rfl⟩
     · rename_i hb hc
-      simp only [Bool.not_eq_true, Bool.not_eq_false] at hc
-      exact ⟨hi, by simpa [endOKO, endOK] using litOK_of_endWith st.cur.tk (by simpa [Tok.tk] using hc)⟩
+      have hc2 : bytesEndWith st.cur.lit [42, 47] = true := by
+        cases h : bytesEndWith st.cur.lit [42, 47] with
+        | true => rfl
+        | false => simp [h] at hc
+      exact ⟨hi, by simpa [endOKO, endOK] using litOK_of_endWith st.cur.tk (by simpa [Tok.tk] using hc2)⟩
   · rename_i hb
     have hl : st.cur.type = .LINECOMMENT := by rcases hk with h | h; exact h; exact absurd h hb
     have := curLit H hi (by rw [hl]; decide)
@@ -136,6 +139,11 @@ theorem mapPairError_end (st : PState) (hi : Inv s st) : wp (mapPairError s) (Po
   · refine wp_conseq (peekError_inv _ st hi) ?_
     intro _ st' h; exact ⟨h, rfl⟩
 
+theorem parameter_inv (st : PState) (hi : Inv s st) : wp (parameter s) (fun _ st' => Inv s st') st := by
+  unfold parameter
+  wvc
+  exact hi
+
 theorem parseFunctionParametersLoop_inv : ∀ (fuel : Nat) (acc : NList) (st : PState), Inv s st →
     wp (parseFunctionParametersLoop s fuel acc) (fun _ st' => Inv s st') st
   | 0, _, _, _ => by unfold parseFunctionParametersLoop; trivial
@@ -143,7 +151,9 @@ theorem parseFunctionParametersLoop_inv : ∀ (fuel : Nat) (acc : NList) (st : P
     unfold parseFunctionParametersLoop
     wvc
     split
-    · exact parseFunctionParametersLoop_inv n _ _ (inv_adv (inv_adv hi))
+    · refine wp_conseq (parameter_inv _ (inv_adv (inv_adv hi))) ?_
+      intro id st0 hi0
+      exact parseFunctionParametersLoop_inv n _ _ hi0
     · exact hi
 
 theorem parseFunctionParameters_inv (fuel : Nat) (st : PState) (hi : Inv s st) :
@@ -152,7 +162,9 @@ theorem parseFunctionParameters_inv (fuel : Nat) (st : PState) (hi : Inv s st) :
   wvc
   split
   · exact inv_adv hi
-  · refine wp_conseq (parseFunctionParametersLoop_inv fuel _ _ (inv_adv hi)) ?_
+  · refine wp_conseq (parameter_inv _ (inv_adv hi)) ?_
+    intro id st0 hi0
+    refine wp_conseq (parseFunctionParametersLoop_inv fuel _ _ hi0) ?_
     intro ids st1 h1
     wvc
     refine wp_conseq (expectPeek_inv _ st1 h1) ?_
@@ -222,7 +234,9 @@ theorem estep_pE (H : LitFact s) {n : Nat} (ih : AllEnd s n) (P : Nat) (st : PSt
     | none =>
       dsimp only; wvc
       split
-      · unfold noPrefixParseFnError; wvc; apply errorLine_wp; wvc; finN
+      · split
+        · finN
+        · unfold noPrefixParseFnError; wvc; apply errorLine_wp; wvc; finN
       · finN
     | some fn =>
       dsimp only; wvc
